@@ -156,6 +156,7 @@ func New(cfg Config) *World {
 			h := w.AfterBegin
 			w.AfterBegin = nil
 			h(ctx)
+			r.Events = append(r.Events, ctx.EventManager().ABCIEvents()...) // what the hook emitted belongs to the block's response too
 		}
 		return r, err
 	})
